@@ -500,6 +500,7 @@ def c06(run):
     scen, obs, bad, facts = transform_run(run, scen, "comp", "C06", "VIOLATION-C06")
     # note: is the transcription the algorithm of this code?  byte-for-byte comparison on the recorded calls
     small = [o for o in obs if len(o) < 40000]
+    small = small[::max(1, len(small) // 15000)]          # the byte-for-byte pass is a note-level aid: bounded
     p2 = os.path.join(run.wd, "comp_small.ndjson")
     with open(p2, "w") as f:
         f.write("\n".join(small) + "\n")
@@ -549,6 +550,7 @@ def c07(run):
     scen, obs, bad, facts = transform_run(run, scen, "ren", "C07", "VIOLATION-C07")
     # note: the transcription's output vs the real renamer's output, byte for byte, on the recorded calls
     small = [o for o in obs if len(o) < 40000]
+    small = small[::max(1, len(small) // 15000)]          # the byte-for-byte pass is a note-level aid: bounded
     p2 = os.path.join(run.wd, "ren_small.ndjson")
     with open(p2, "w") as f:
         f.write("\n".join(small) + "\n")
